@@ -192,7 +192,12 @@ def main():
         "TLC builds every record REF + <= MaxAlt pairwise distinct ALTs of the bounded alphabets/lengths and runs the codec "
         "steps; every final state is replayed into from_variant_record/encode_haplotypes/format_haplotypes. Non-trivial = record "
         "with >= 1 SNV column whose allele numbering is not the identity on rows (a repeated base or >= 3 alleles in a column). "
-        "Pipeline: every record of every assemble output, paired with the call / call-exact record for it."
+        "Pipeline: every record of every assemble output, paired with the call / call-exact record for it. "
+        "SNVPOS annotations: MC_hint*.cfg let a record arrive with no SNVPOS, SNVPOS=. or any column list (incomplete / stale included); "
+        "the sequence path must give the model's answer for every annotation, the trusted path when the annotation covers the polymorphic columns; "
+        "a sample of the non-covering states is fed to call / call-exact as haplotype catalogues. "
+        "Record stream: every target list of CallStream (nested targets sharing a start included) -> BED -> assemble -> call / call-exact, "
+        "each run validated as a whole (EveryRecordOnce) and record by record."
     )
     cfgs = ["MC_quick.cfg", "MC_quick_b.cfg", "MC_quick_c.cfg", "MC_hint.cfg"] if tier == "quick" else \
         ["MC_quick_c.cfg", "MC_thorough.cfg", "MC_thorough_b.cfg", "MC_thorough_c.cfg", "MC_hint.cfg", "MC_hint_b.cfg", "MC_hint_thorough.cfg"]
@@ -213,9 +218,14 @@ def main():
     fut_stream = side.submit(tlc.run, SPEC, "CallStream", "Stream_quick.cfg" if tier == "quick" else "Stream_thorough.cfg",
                              workers=2, keep_stdout=False)
     fut_mut = [side.submit(tlc.run, SPEC, "CallStream" if "stream" in cfg else "HapCodec", cfg, workers=2) for cfg, _ in MUTANTS]
+    ahead = ThreadPoolExecutor(max_workers=1)      # TLC on the next configuration while this one is replayed
+    run_cfg = lambda c: tlc.run(SPEC, "HapCodec", c, timeout=1700, keep_stdout=False)
+    nxt = ahead.submit(run_cfg, cfgs[0])
     try:
-        for cfg in cfgs:
-            r = tlc.run(SPEC, "HapCodec", cfg, timeout=1700, keep_stdout=False)
+        for ci, cfg in enumerate(cfgs):
+            r = nxt.result()
+            if ci + 1 < len(cfgs):
+                nxt = ahead.submit(run_cfg, cfgs[ci + 1])
             ck.add_tlc(r, "HapCodec/" + cfg)
             if r.violated:
                 ck.violation("model", {"cfg": cfg, "invariant": r.violated, "text": r.error_text[:1500]}, key={"model": "HapCodec", "cfg": cfg})
